@@ -60,7 +60,10 @@ impl Rewrite<MetaVariable> {
     let edits = find_and_make_edits(nodes, &rules, ctx);
     let rewritten = if let Some(joiner) = &self.join_by {
       let mut ret = vec![];
-      let mut edits = edits.into_iter();
+      // an edit widened by expandStart/expandEnd beyond the rewritten text cannot be applied to it
+      let mut edits = edits
+        .into_iter()
+        .filter(|e| e.position >= start && e.position - start + e.deleted_length <= bytes.len());
       if let Some(first) = edits.next() {
         let mut pos = first.position - start + first.deleted_length;
         ret.extend(first.inserted_text);
@@ -132,7 +135,13 @@ fn make_edit<D: Doc>(
   let mut new_content = vec![];
   let mut start = 0;
   for edit in edits {
-    let pos = edit.position - offset;
+    // an edit widened by expandStart/expandEnd beyond the rewritten text cannot be applied to it
+    let Some(pos) = edit.position.checked_sub(offset) else {
+      continue;
+    };
+    if pos + edit.deleted_length > old_content.len() {
+      continue;
+    }
     // skip overlapping edits
     if start > pos {
       continue;
